@@ -31,6 +31,11 @@ pub struct Obs {
     pub dedup_uniq: bool,
     /// a value enumerated or returned that is not an integer (never expected)
     pub bad_value: bool,
+    /// the map view read through the other channels: (channel, pairs in order);
+    /// channels: serde, sval (p.as_map()), serde-dedup, sval-dedup (p.dedup().as_map())
+    pub ser: Vec<(String, Result<Vec<KV>, String>)>,
+    /// keys of the Display and Debug renderings of p.as_map()
+    pub shown: Vec<(String, Result<Vec<String>, String>)>,
 }
 
 /// Values are integers in the model; the views carry timestamps and ids, which are read
@@ -131,7 +136,159 @@ pub fn observe<P: Props>(p: &P, keys: &[String]) -> Obs {
     let (dedup_full, _, _) = enumerate(d, 0, &mut bad);
     let (dedup_get, _) = lookups(d, keys, &mut bad);
     let dedup_uniq = d.is_unique();
-    Obs { full, brk, get, pull, uniq, dedup_full, dedup_get, dedup_uniq, bad_value: bad }
+    let ser = vec![
+        ("serde".to_string(), serde_json::to_string(p.as_map()).map_err(|e| e.to_string()).and_then(|t| flat_json(&t))),
+        ("sval".to_string(), sval_json::stream_to_string(p.as_map()).map_err(|e| e.to_string()).and_then(|t| flat_json(&t))),
+        ("serde-dedup".to_string(), serde_json::to_string(d.as_map()).map_err(|e| e.to_string()).and_then(|t| flat_json(&t))),
+        ("sval-dedup".to_string(), sval_json::stream_to_string(d.as_map()).map_err(|e| e.to_string()).and_then(|t| flat_json(&t))),
+    ];
+    let shown = vec![
+        ("display".to_string(), shown_keys(&format!("{}", p.as_map()))),
+        ("debug".to_string(), shown_keys(&format!("{:?}", p.as_map()))),
+    ];
+    Obs { full, brk, get, pull, uniq, dedup_full, dedup_get, dedup_uniq, bad_value: bad, ser, shown }
+}
+
+/// Read a flat JSON object `{"k": v, ..}` keeping order and duplicates (serde_json's own
+/// map would drop both).  Values are read back as the model's integers.
+pub fn flat_json(text: &str) -> Result<Vec<KV>, String> {
+    let b: Vec<char> = text.chars().collect();
+    let mut i = 0usize;
+    let err = |i: usize| Err(format!("not a flat object at {i}: {text}"));
+    let ws = |i: &mut usize| {
+        while *i < b.len() && b[*i].is_whitespace() {
+            *i += 1;
+        }
+    };
+    fn string(b: &[char], i: &mut usize) -> Option<String> {
+        if b.get(*i) != Some(&'"') {
+            return None;
+        }
+        *i += 1;
+        let mut out = String::new();
+        while *i < b.len() {
+            let c = b[*i];
+            *i += 1;
+            match c {
+                '"' => return Some(out),
+                '\\' => {
+                    let e = *b.get(*i)?;
+                    *i += 1;
+                    match e {
+                        'n' => out.push('\n'),
+                        't' => out.push('\t'),
+                        'r' => out.push('\r'),
+                        'b' => out.push('\u{8}'),
+                        'f' => out.push('\u{c}'),
+                        'u' => {
+                            let h: String = b.get(*i..*i + 4)?.iter().collect();
+                            *i += 4;
+                            out.push(char::from_u32(u32::from_str_radix(&h, 16).ok()?)?);
+                        }
+                        other => out.push(other),
+                    }
+                }
+                c => out.push(c),
+            }
+        }
+        None
+    }
+    ws(&mut i);
+    if b.get(i) != Some(&'{') {
+        return err(i);
+    }
+    i += 1;
+    let mut out = Vec::new();
+    ws(&mut i);
+    if b.get(i) == Some(&'}') {
+        return Ok(out);
+    }
+    loop {
+        ws(&mut i);
+        let Some(k) = string(&b, &mut i) else { return err(i) };
+        ws(&mut i);
+        if b.get(i) != Some(&':') {
+            return err(i);
+        }
+        i += 1;
+        ws(&mut i);
+        let v = if b.get(i) == Some(&'"') {
+            let Some(t) = string(&b, &mut i) else { return err(i) };
+            text_value(&t)
+        } else {
+            let st = i;
+            while i < b.len() && !matches!(b[i], ',' | '}') {
+                i += 1;
+            }
+            b[st..i].iter().collect::<String>().trim().parse::<i64>().ok()
+        };
+        out.push((k, v.unwrap_or(i64::MIN)));
+        ws(&mut i);
+        match b.get(i) {
+            Some(',') => i += 1,
+            Some('}') => return Ok(out),
+            _ => return err(i),
+        }
+    }
+}
+
+/// Texts the views serialize their values as, back to the model's integers.
+fn text_value(t: &str) -> Option<i64> {
+    if t.len() == 32 {
+        if let Ok(id) = t.parse::<emit::span::TraceId>() {
+            return Some(id.to_u128() as i64);
+        }
+    }
+    if t.len() == 16 {
+        if let Ok(id) = t.parse::<emit::span::SpanId>() {
+            return Some(id.to_u64() as i64);
+        }
+    }
+    if let Ok(i) = t.parse::<i64>() {
+        return Some(i);
+    }
+    if let Ok(ts) = t.parse::<emit::Timestamp>() {
+        return Some(ts.to_unix().as_secs() as i64);
+    }
+    match t {
+        "span" => Some(31),
+        "metric" => Some(32),
+        _ => None,
+    }
+}
+
+/// The keys of a `{"k": v, "k2": v2}` rendering (Display / Debug of a map view).
+pub fn shown_keys(text: &str) -> Result<Vec<String>, String> {
+    let t = text.trim();
+    if !t.starts_with('{') || !t.ends_with('}') {
+        return Err(format!("not a map rendering: {text}"));
+    }
+    let b: Vec<char> = t[1..t.len() - 1].chars().collect();
+    let mut keys = Vec::new();
+    let mut i = 0usize;
+    while i < b.len() {
+        if b[i] == '"' {
+            // a quoted text: a key when followed by ": "
+            let st = i + 1;
+            i += 1;
+            let mut s = String::new();
+            while i < b.len() && b[i] != '"' {
+                if b[i] == '\\' && i + 1 < b.len() {
+                    i += 1;
+                }
+                s.push(b[i]);
+                i += 1;
+            }
+            let _ = st;
+            i += 1;
+            if b.get(i) == Some(&':') && b.get(i + 1) == Some(&' ') {
+                keys.push(s);
+            }
+        } else {
+            i += 1;
+        }
+    }
+    Ok(keys)
 }
 
 pub fn kvs_of(v: &Value) -> Vec<KV> {
@@ -264,6 +421,26 @@ pub fn compare(obs: &Obs, case: &Value, checks: &mut u64) -> (Vec<Value>, Vec<Va
                             "visited": kvj(vis), "enumeration": kvj(&obs.full)}));
         }
     }
+    // every channel of the map view yields exactly what for_each yields (the same value
+    // was enumerated just before, so even unordered collections must come in that order)
+    for (chan, got) in &obs.ser {
+        *checks += 1;
+        let want = if chan.ends_with("-dedup") { &obs.dedup_full } else { &obs.full };
+        match got {
+            Ok(g) if g == want => {}
+            Ok(g) => bad.push(json!({"clause": "map-view-serialization", "channel": chan, "want": kvj(want), "got": kvj(g)})),
+            Err(e) => bad.push(json!({"clause": "map-view-serialization", "channel": chan, "error": e})),
+        }
+    }
+    for (chan, got) in &obs.shown {
+        *checks += 1;
+        let want: Vec<String> = obs.full.iter().map(|e| e.0.clone()).collect();
+        match got {
+            Ok(g) if *g == want => {}
+            Ok(g) => bad.push(json!({"clause": "map-view-rendering", "channel": chan, "want_keys": want, "got_keys": g})),
+            Err(e) => bad.push(json!({"clause": "map-view-rendering", "channel": chan, "error": e})),
+        }
+    }
     // level-B transcription (drift only)
     if obs.uniq != case["uniqB"].as_bool().unwrap() {
         drift.push(json!({"what": "is_unique differs from the transcription", "got": obs.uniq}));
@@ -387,6 +564,63 @@ pub fn span_view<P: Props + 'static>(user: P) -> &'static emit::span::Span<'stat
     *evt.props()
 }
 
+/// The same views put together through the builder methods instead of `new`; the
+/// accessors must say what was put in (a disagreement panics and is reported).
+pub fn span_view_with<P: Props + 'static>(user: P) -> &'static emit::span::Span<'static, P> {
+    use emit::event::ToEvent;
+    let s = emit::span::Span::new(emit::Path::new_raw("x"), "0", emit::Empty, emit::Empty)
+        .with_mdl(emit::Path::new_raw("m"))
+        .with_name(SPAN_NAME)
+        .with_extent(ts(3)..ts(5))
+        .with_tpl(emit::Template::literal("t"))
+        .with_props(("dropped", 1i64))
+        .map_props(|_| emit::Empty)
+        .with_props(user);
+    assert_eq!(s.ts(), Some(&ts(5)), "Span::ts");
+    assert_eq!(s.ts_start(), Some(&ts(3)), "Span::ts_start");
+    assert_eq!(s.name().get(), SPAN_NAME, "Span::name");
+    assert!(*s.mdl() == emit::Path::new_raw("m"), "Span::mdl");
+    let span: &'static emit::span::Span<'static, P> = leak(s);
+    let evt = leak(span.to_event());
+    *evt.props()
+}
+
+pub fn metric_view_with<P: Props + 'static>(user: P) -> &'static emit::metric::Metric<'static, P> {
+    use emit::event::ToEvent;
+    let m = emit::metric::Metric::new(emit::Path::new_raw("x"), "0", "0", emit::Empty, 0i64, emit::Empty)
+        .with_mdl(emit::Path::new_raw("m"))
+        .with_name(METRIC_NAME)
+        .with_agg(METRIC_AGG)
+        .with_value(METRIC_VALUE)
+        .with_extent(ts(3)..ts(5))
+        .with_tpl(emit::Template::literal("t"))
+        .with_props(("dropped", 1i64))
+        .map_props(|_| emit::Empty)
+        .with_props(user);
+    assert_eq!(m.ts(), Some(&ts(5)), "Metric::ts");
+    assert_eq!(m.ts_start(), Some(&ts(3)), "Metric::ts_start");
+    assert_eq!(m.agg().get(), METRIC_AGG, "Metric::agg");
+    assert_eq!(m.name().get(), METRIC_NAME, "Metric::name");
+    assert!(*m.mdl() == emit::Path::new_raw("m"), "Metric::mdl");
+    assert!(m.extent().map_or(false, |e| e.is_range()), "Metric::extent");
+    assert_eq!(m.value().by_ref().cast::<i64>(), Some(METRIC_VALUE), "Metric::value");
+    let metric: &'static emit::metric::Metric<'static, P> = leak(m);
+    // `props()` hands out the user properties alone
+    let mut n = 0;
+    let mut u = 0;
+    let _ = metric.for_each(|_, _| {
+        n += 1;
+        std::ops::ControlFlow::Continue(())
+    });
+    let _ = metric.props().for_each(|_, _| {
+        u += 1;
+        std::ops::ControlFlow::Continue(())
+    });
+    assert_eq!(n, u + 4, "Metric::props");
+    let evt = leak(metric.to_event());
+    *evt.props()
+}
+
 pub fn metric_view<P: Props + 'static>(user: P) -> &'static emit::metric::Metric<'static, P> {
     use emit::event::ToEvent;
     let metric: &'static emit::metric::Metric<'static, P> =
@@ -452,6 +686,8 @@ pub fn interp(t: &Value) -> Dyn {
         "ctxt" => leak(ctxt_of(t)),
         "span" => span_view(interp(&t["t"])),
         "metric" => metric_view(interp(&t["t"])),
+        "span_with" => span_view_with(interp(&t["t"])),
+        "metric_with" => metric_view_with(interp(&t["t"])),
         "extent" => leak(extent_view(&pairs(t))),
         "spanctxt" => leak(span_ctxt_view(&pairs(t))),
         "opt" => leak(Some(interp(&t["t"]))),
